@@ -222,6 +222,9 @@ def in_claim(sels, depth):
 
 # ----------------------------------------------------------------------------- generation
 def gen_tree(rng, quick=True):
+    if rng.random() < 0.12:
+        # leaves that are automatic integer indices (labels are positions, no map) of different sizes
+        return ic.auto_leaf_tuples(rng)
     depth = rng.choice([2, 2, 3, 3, 4])
     toks, kinds = ic.rand_tree_tuples(rng, depth, max_fan=3, max_leaves=rng.choice([1, 2, 4, 6, 9, 12]))
     return toks, kinds
@@ -235,6 +238,8 @@ def pick_route(rng, toks, kinds):
         cands.append('from_index_items')
     if ic.is_product(hts):
         cands += ['from_product', 'from_product']
+    if ic.is_auto_leaf(tups):
+        cands = ['from_index_items_auto', 'concat_items_auto', 'concat_items_auto', rng.choice(cands)]
     return rng.choice(cands)
 
 
